@@ -56,6 +56,22 @@ func c05Store(c *vlib.Ctx) {
 	}
 }
 
+// c05Dense: many dequeues less than 10ms (store clock) apart while short leases
+// expire - the polling pattern of several consumers on one store. An expired
+// lease must still be offered within the sweep granularity.
+func c05Dense(c *vlib.Ctx) {
+	w := map[storecheck.Kind]int{storecheck.KEnqueue: 8, storecheck.KDequeue: 40, storecheck.KNack: 4, storecheck.KAck: 2, storecheck.KExtend: 2, storecheck.KAdvance: 40}
+	seqs := c.N(40, 800)
+	for _, be := range []string{"memory", "sqlite"} {
+		for s := 0; s < seqs; s++ {
+			r := vlib.Derive(c.Seed, "C05dense", be, s)
+			g := storecheck.GenCfg{NIDs: r.Range(4, 20), Routes: stdRoutes[:2], Targets: stdTargets[:1], Weights: w, DensePolling: true}
+			storecheck.RunSequence(c, r, storecheck.RunCfg{Backends: []string{be}, Gen: g, Steps: r.Range(80, 160),
+				Label: fmt.Sprintf("C05/dense/%s/seq%d", be, s), Props: map[string]bool{"C05": true}, Remap: c05Remap})
+		}
+	}
+}
+
 // c05Pull drives pullapi.Server.Dequeue (batch capped at pull_api.max_batch).
 func c05Pull(c *vlib.Ctx) {
 	dir := c.Scratch()
@@ -227,6 +243,7 @@ func C05(c *vlib.Ctx) {
 	c.Assume("liveness restated as bounded progress on the store clock: a message due at T is returned by the first dequeue at or after T (+10ms sweep granularity for expired leases on SQLite)")
 	c.Assume("a due message that a retention prune may remove inside the same dequeue call counts as 'may', not 'must'")
 	c05Store(c)
+	c05Dense(c)
 	c05Pull(c)
 	c05Crash(c)
 	c05Restart(c)
